@@ -47,6 +47,10 @@ type Opts struct {
 	// in-process streams. Fatal must be 0 (a response produced while the RPC ends
 	// is not observable over a real transport).
 	Net bool
+	// ReElect > 0: after every ReElect-th request the session announces a higher election id
+	// (the primary raises its own id, which changes nothing else: entries, held operations and
+	// counters stay) and stamps its later operations with it.
+	ReElect int
 	// NoRefCheck: the server is built with server.DisableRIBCheckFn() and the model does no
 	// reference checking (counters are not compared).
 	NoRefCheck bool
@@ -379,6 +383,26 @@ func RunHistory(h hgen.History, o Opts) (*ev.Verdict, *l1.Trace) {
 			return v, tr
 		}
 		nreq++
+		if o.ReElect > 0 && nreq%o.ReElect == 0 && fatalAt < 0 {
+			elec = gen.ID128{Hi: elec.Hi, Lo: elec.Lo + 1}
+			if _, hg := x.Send(&spb.ModifyRequest{ElectionId: elec.Proto()}); hg != nil {
+				HangFinding(v, P, hg)
+				return v, tr
+			}
+			ers, eended, hg := x.Barrier()
+			if hg != nil {
+				HangFinding(v, P, hg)
+				return v, tr
+			}
+			if eended || len(ers) != 1 || ers[0].GetElectionId() == nil || gen.FromProto128(ers[0].GetElectionId()).Cmp(elec) != 0 {
+				v.Fail(P+"/re-election", "%s: the primary announced the higher id %s: ended=%v (%v), responses %v", when, elec, eended, x.Err(), ers)
+				return v, tr
+			}
+			v.Class("primary-raises-its-election-id")
+			if !observe(when + ", then the primary announced " + elec.String()) {
+				return v, tr
+			}
+		}
 		if o.ObserveEvery <= 1 || nreq%o.ObserveEvery == 0 || i >= len(h.Steps) || fatalAt >= 0 {
 			if !observe(when) {
 				return v, tr
